@@ -137,6 +137,28 @@ CHECKS = {
              'GrowingHeapBuf::push (stated exception) and the capacity-bounded FixedHeapBuf::push.',
         note='User code (wakers, payloads, user buffers, clocks) and the lock type\'s internals are outside the '
              'crate; dropping the last Arc handle counts as destruction.', ref='5-C18'),
+    'C19': dict(
+        technique='per-path agreement of each buffer function\'s MIR effect summary with the canonical ring schema '
+                  '(guarded raw access, index advance through next_idx, size +-1), who-may-write scan',
+        text='PARTIAL. Decided: access/accounting pairing of ArrayBuf (write at send_idx under size != LEN; read and '
+             'drop at recv_idx under size > 0; the used index advances through next_idx, i+1 or 0 at LEN; size +-1; '
+             'Drop walks size elements), pure report functions, and the VecDeque delegation of the heap buffers. '
+             'NOT decided: FIFO order and exactly-once drop as behaviour over all push/pop sequences - they follow '
+             'from the schema by the textbook ring-buffer induction, which is not mechanised (program verification '
+             'over integer values is outside this technique family here).',
+        note='VecDeque is trusted to be a FIFO deque.', ref='5-C19'),
+    'C20': dict(
+        technique='per-path agreement of each list/heap function\'s MIR effect summary with the canonical link-'
+                  'surgery schema (final-store comparison, argument orientation of calls)',
+        text='PARTIAL. Decided, per function and per MIR path: removed nodes carry no links (list and heap), both '
+             'ends kept consistent under the entry invariant head None <=> tail None, neighbours spliced, non-member '
+             'removal is a write-free false, drains clear links before each callback, meld makes the smaller node '
+             'the parent, remove re-attaches merged children, safe_lesser(a,b) is a < b. NOT decided: that the '
+             'list is a deque and the heap a min-priority queue for every operation sequence with all links '
+             'mutually consistent - functional correctness of pointer structures over unbounded histories is '
+             'beyond shape rules; every other property assumes it through the queue-op summaries.',
+        note='Nodes passed in are members of this container or of none (documented unsafe precondition).',
+        ref='5-C20'),
 }
 
 
